@@ -264,6 +264,9 @@ package wire
 //@ define argsInRange(ig *injectorGen, c *call) = forall j :: 0 <= j && j < len(c.args) ==> 0 <= c.args[j] && c.args[j] < len(ig.paramNames) + len(ig.localNames)
 
 //@ func (*injectorGen).funcProviderCall
+//@   ensures [C01] OUTLEN[&ig.g.buf] >= old(OUTLEN[&ig.g.buf]) && forall k :: k < old(OUTLEN[&ig.g.buf]) ==> OUTEV[&ig.g.buf][k] == old(OUTEV[&ig.g.buf][k])
+//@   loop 1 invariant [C01] OUTLEN[&ig.g.buf] >= old(OUTLEN[&ig.g.buf]) && forall k :: k < old(OUTLEN[&ig.g.buf]) ==> OUTEV[&ig.g.buf][k] == old(OUTEV[&ig.g.buf][k])
+//@   loop 2 invariant [C01] OUTLEN[&ig.g.buf] >= old(OUTLEN[&ig.g.buf]) && forall k :: k < old(OUTLEN[&ig.g.buf]) ==> OUTEV[&ig.g.buf][k] == old(OUTEV[&ig.g.buf][k])
 //@   requires c.pkg != nil && injectSig.out != nil && argsInRange(ig, c)
 //@   requires [C14] namesOK(ig) && len(ig.localNames) > 0 && ig.localNames[len(ig.localNames) - 1] == lname
 //@   ensures [C14] namesOK(ig)
@@ -315,6 +318,8 @@ package wire
 // provider reads `.name` of its parent's slot, or takes its address when it provides the pointer.
 //@ define slotName(ig *injectorGen, a int) = a < len(ig.paramNames) ? ig.paramNames[a] : ig.localNames[a - len(ig.paramNames)]
 //@ func (*injectorGen).structProviderCall
+//@   ensures [C01] OUTLEN[&ig.g.buf] >= old(OUTLEN[&ig.g.buf]) && forall k :: k < old(OUTLEN[&ig.g.buf]) ==> OUTEV[&ig.g.buf][k] == old(OUTEV[&ig.g.buf][k])
+//@   loop 1 invariant [C01] OUTLEN[&ig.g.buf] >= old(OUTLEN[&ig.g.buf]) && forall k :: k < old(OUTLEN[&ig.g.buf]) ==> OUTEV[&ig.g.buf][k] == old(OUTEV[&ig.g.buf][k])
 //@   requires c.pkg != nil && argsInRange(ig, c) && len(c.fieldNames) == len(c.args)
 //@   modifies OUTLEN[&ig.g.buf], OUTEV[&ig.g.buf], mapof(ig.g.imports)
 //@   ensures ig.discard ==> OUTLEN[&ig.g.buf] == old(OUTLEN[&ig.g.buf])
@@ -331,9 +336,11 @@ package wire
 //@   loop 1 invariant [C12] !ig.discard ==> evfmt(OUTEV[&ig.g.buf][old(OUTLEN[&ig.g.buf]) + 2 + ((c.out is *types.Pointer) ? 1 : 0)]) == "%s{\n"
 //@   loop 1 invariant [C12] !ig.discard ==> forall k :: 0 <= k && k < done ==> OUTEV[&ig.g.buf][old(OUTLEN[&ig.g.buf]) + 3 + ((c.out is *types.Pointer) ? 1 : 0) + 3 * k] == ev("\t\t%s: ", c.fieldNames[k]) && OUTEV[&ig.g.buf][old(OUTLEN[&ig.g.buf]) + 4 + ((c.out is *types.Pointer) ? 1 : 0) + 3 * k] == ev("%s", slotName(ig, c.args[k])) && OUTEV[&ig.g.buf][old(OUTLEN[&ig.g.buf]) + 5 + ((c.out is *types.Pointer) ? 1 : 0) + 3 * k] == ev(",\n")
 //@ func (*injectorGen).valueExpr
+//@   ensures [C01] OUTLEN[&ig.g.buf] >= old(OUTLEN[&ig.g.buf]) && forall k :: k < old(OUTLEN[&ig.g.buf]) ==> OUTEV[&ig.g.buf][k] == old(OUTEV[&ig.g.buf][k])
 //@   modifies OUTLEN[&ig.g.buf], OUTEV[&ig.g.buf]
 //@   ensures ig.discard ==> OUTLEN[&ig.g.buf] == old(OUTLEN[&ig.g.buf])
 //@ func (*injectorGen).fieldExpr
+//@   ensures [C01] OUTLEN[&ig.g.buf] >= old(OUTLEN[&ig.g.buf]) && forall k :: k < old(OUTLEN[&ig.g.buf]) ==> OUTEV[&ig.g.buf][k] == old(OUTEV[&ig.g.buf][k])
 //@   requires argsInRange(ig, c) && len(c.args) >= 1
 //@   modifies OUTLEN[&ig.g.buf], OUTEV[&ig.g.buf]
 //@   ensures ig.discard ==> OUTLEN[&ig.g.buf] == old(OUTLEN[&ig.g.buf])
@@ -342,7 +349,21 @@ package wire
 //@   ensures [C12] !ig.discard && c.ptrToField ==> OUTEV[&ig.g.buf][old(OUTLEN[&ig.g.buf]) + 1] == ev("&")
 //@   ensures [C12] !ig.discard ==> OUTEV[&ig.g.buf][OUTLEN[&ig.g.buf] - 1] == ev("%s.%s\n", slotName(ig, c.args[0]), c.name)
 
+// C01: the emitted function header repeats the template: `func <name>(`, one `<param name> <type>`
+// event per parameter in order (`...` form exactly for the last parameter of a variadic template),
+// then the result list of the template's shape (value / +cleanup / +error).
+//@ define paramEv(e event, pname string, variadic bool) = evn(e) == 2 && eva(e, 0) == box(pname) && evfmt(e) == (variadic ? "%s ...%s" : "%s %s")
+//@ define sigLine(e event, sig *types.Signature) = evn(e) == 1 && evfmt(e) == (sigCleanup(sig) ? (sigErr(sig) ? ") (%s, func(), error) {\n" : ") (%s, func()) {\n") : (sigErr(sig) ? ") (%s, error) {\n" : ") %s {\n"))
 //@ func injectPass
+//@   ensures [C01] !ig.discard ==> OUTLEN[&ig.g.buf] > (sig.Params().Len() == 0 ? (old(OUTLEN[&ig.g.buf]) + (doc != nil ? len(doc.List) : 0)) + 1 : (old(OUTLEN[&ig.g.buf]) + (doc != nil ? len(doc.List) : 0)) + 2 * sig.Params().Len()) && OUTEV[&ig.g.buf][(old(OUTLEN[&ig.g.buf]) + (doc != nil ? len(doc.List) : 0))] == ev("func %s(", name) && sigLine(OUTEV[&ig.g.buf][(sig.Params().Len() == 0 ? (old(OUTLEN[&ig.g.buf]) + (doc != nil ? len(doc.List) : 0)) + 1 : (old(OUTLEN[&ig.g.buf]) + (doc != nil ? len(doc.List) : 0)) + 2 * sig.Params().Len())], sig)
+//@   ensures [C01] !ig.discard ==> forall j :: 0 <= j && j < sig.Params().Len() ==> paramEv(OUTEV[&ig.g.buf][(old(OUTLEN[&ig.g.buf]) + (doc != nil ? len(doc.List) : 0)) + 1 + 2 * j], ig.paramNames[j], sig.Variadic() && j == sig.Params().Len() - 1)
+//@   loop 1 invariant [C01] !ig.discard ==> OUTLEN[&ig.g.buf] == old(OUTLEN[&ig.g.buf]) + done
+//@   loop 2 invariant [C01] !ig.discard ==> OUTLEN[&ig.g.buf] == (i == 0 ? (old(OUTLEN[&ig.g.buf]) + (doc != nil ? len(doc.List) : 0)) + 1 : (old(OUTLEN[&ig.g.buf]) + (doc != nil ? len(doc.List) : 0)) + 2 * i) && OUTEV[&ig.g.buf][(old(OUTLEN[&ig.g.buf]) + (doc != nil ? len(doc.List) : 0))] == ev("func %s(", name)
+//@   loop 2 invariant [C01] !ig.discard ==> forall j :: 0 <= j && j < i ==> paramEv(OUTEV[&ig.g.buf][(old(OUTLEN[&ig.g.buf]) + (doc != nil ? len(doc.List) : 0)) + 1 + 2 * j], ig.paramNames[j], sig.Variadic() && j == sig.Params().Len() - 1)
+//@   loop 3 invariant [C01] !ig.discard ==> OUTLEN[&ig.g.buf] > (sig.Params().Len() == 0 ? (old(OUTLEN[&ig.g.buf]) + (doc != nil ? len(doc.List) : 0)) + 1 : (old(OUTLEN[&ig.g.buf]) + (doc != nil ? len(doc.List) : 0)) + 2 * sig.Params().Len()) && OUTEV[&ig.g.buf][(old(OUTLEN[&ig.g.buf]) + (doc != nil ? len(doc.List) : 0))] == ev("func %s(", name) && sigLine(OUTEV[&ig.g.buf][(sig.Params().Len() == 0 ? (old(OUTLEN[&ig.g.buf]) + (doc != nil ? len(doc.List) : 0)) + 1 : (old(OUTLEN[&ig.g.buf]) + (doc != nil ? len(doc.List) : 0)) + 2 * sig.Params().Len())], sig)
+//@   loop 3 invariant [C01] !ig.discard ==> forall j :: 0 <= j && j < sig.Params().Len() ==> paramEv(OUTEV[&ig.g.buf][(old(OUTLEN[&ig.g.buf]) + (doc != nil ? len(doc.List) : 0)) + 1 + 2 * j], ig.paramNames[j], sig.Variadic() && j == sig.Params().Len() - 1)
+//@   loop 4 invariant [C01] !ig.discard ==> OUTLEN[&ig.g.buf] > (sig.Params().Len() == 0 ? (old(OUTLEN[&ig.g.buf]) + (doc != nil ? len(doc.List) : 0)) + 1 : (old(OUTLEN[&ig.g.buf]) + (doc != nil ? len(doc.List) : 0)) + 2 * sig.Params().Len()) && OUTEV[&ig.g.buf][(old(OUTLEN[&ig.g.buf]) + (doc != nil ? len(doc.List) : 0))] == ev("func %s(", name) && sigLine(OUTEV[&ig.g.buf][(sig.Params().Len() == 0 ? (old(OUTLEN[&ig.g.buf]) + (doc != nil ? len(doc.List) : 0)) + 1 : (old(OUTLEN[&ig.g.buf]) + (doc != nil ? len(doc.List) : 0)) + 2 * sig.Params().Len())], sig)
+//@   loop 4 invariant [C01] !ig.discard ==> forall j :: 0 <= j && j < sig.Params().Len() ==> paramEv(OUTEV[&ig.g.buf][(old(OUTLEN[&ig.g.buf]) + (doc != nil ? len(doc.List) : 0)) + 1 + 2 * j], ig.paramNames[j], sig.Variadic() && j == sig.Params().Len() - 1)
 //@   nullable doc
 //@   requires okSig(sig) && len(ig.paramNames) == 0 && len(ig.localNames) == 0 && len(ig.cleanupNames) == 0
 //@   requires wfCalls(calls, sig.Params().Len())
